@@ -81,6 +81,27 @@ def specs(draw, tier):
         cand["radius"] = spec["truth"]["radius"]
         if cls != "SphericalDroplet":  # the candidate's own render: diffuse, or (one case in four) sharp
             cand["interface_width"] = 0.0 if draw(st.integers(0, 3)) == 0 else spec["truth"]["interface_width"]
+    if fam == "cart" and kind != "self" and draw(st.integers(0, 7)) == 3:
+        # candidates that cover no support point of the grid: smaller than a cell and centred on a cell corner, or lying entirely
+        # beyond a non-periodic wall; along periodic axes they may sit several periods away from the box
+        shape, dx, org, per = g["shape"], g["spacing"], g["origin"], g["periodic"]
+        what = draw(st.sampled_from(["tiny-corner", "tiny-corner", "beyond-wall"]))
+        cpos = []
+        for a in range(dim):
+            x = org[a] + dx[a] * draw(st.integers(0, shape[a]))  # a cell corner
+            if per[a]:
+                x += draw(st.integers(-2, 2)) * shape[a] * dx[a]
+            cpos.append(x)
+        rad = min(dx) * draw(st.sampled_from([0.1, 0.25, 0.45]))
+        walls = [a for a in range(dim) if not per[a]]
+        if what == "beyond-wall" and walls:
+            a = draw(st.sampled_from(walls))
+            rad = R * draw(st.floats(0.7, 1.3, **finite))
+            side = draw(st.booleans())
+            cpos[a] = org[a] + shape[a] * dx[a] + 1.5 * rad + dx[a] if side else org[a] - 1.5 * rad - dx[a]
+        cand["position"] = [gen.r6(x) for x in cpos]
+        cand["radius"] = gen.r6(rad)
+        cand["no_support"] = what
     spec["candidate"] = cand
     spec["opts"] = {"levels": draw(st.sampled_from(["fixed", "fixed", "auto", "adjust", "auto+adjust"])), "tolerance": draw(st.sampled_from([None, None, 1e-4, 1e-10]))}
     # documented pass-through of solver options; a small evaluation budget makes the fit stop before it has converged
@@ -224,6 +245,8 @@ class C04(Property):
             ctx.cls("evaluation-budget")
         cand0 = cand.copy()
         ctx.cls(fam, spec["candidate"]["cls"], f"image:{kind}", f"levels:{mode}")
+        if spec["candidate"].get("no_support"):
+            ctx.cls("candidate:" + spec["candidate"]["no_support"])
         # knife-edge rule for sharp candidates: the solver moves a start value that sits on a bound strictly inside (1e-10
         # relative) and probes with steps of 1e-8; if a cell centre lies within 1e-6 R of the sharp interface the indicator of
         # that cell is not stable under such moves and neither the cost comparison nor the fixed point can be judged
